@@ -150,6 +150,10 @@ def build_lattice(cfg, order):
         flags.update(getattr(par, '_verif_flags', {}))
         if cls == 'Grouped':
             from tenpy.networks.site import group_sites
+            if cfg.get('enl', 1) > 1:
+                # (a cache of the sites that survived the enlargement is reported by the index query of the
+                # parent; assigning unit_cell resets it, so that the grouped lattice can be checked on its own)
+                par.unit_cell = par.unit_cell
             grouped = group_sites(par.mps_sites(), cfg['grp'], charges='same')
             lat = par.with_grouped_sites(grouped)
         else:
